@@ -2,7 +2,8 @@ import SaModel.Lemmas.C01CompDefs
 import SaModel.Lemmas.C01DefaultAt
 /-
 Completeness, non-recursive operations: `serialize_default` (k placeholders) and `serialize_none` succeed on every
-builder whose schema supports them, and leave the head room unchanged.
+builder whose schema supports them, at the cost of at most one unit of head room per call (none unless a union
+receives the default: one row of its first real variant, repo fix fe68100).
 -/
 namespace SaModel.Build
 open SaModel SaModel.Spec
